@@ -891,3 +891,23 @@ M('C10', 'rf-abi4-negative-accepted', ABI, '.filter(|amount| !amount.is_negative
 M('C10', 'rf-abi4-high-half-unchecked', ABI, '    ensure!(upper_half_is_zero, ContractError::InvalidAmount);', '    let _ = upper_half_is_zero;', 'C10.R5', base='abi-4')
 M('C10', 'rf-abi4-one-byte-is-none', ABI, '        [] => None,', '        [_] => None,', 'C10.R8', base='abi-4')
 M('C10', 'rf-abi4-all-nonzero-continues', ABI, '.iter().all(|&byte| byte == 0)', '.iter().all(|&byte| byte == 0 || byte == 1)', 'C10.R5', base='abi-4')
+
+# ---------------- additive edits that leave every property intact ----------------
+_GWVIEW = ('#[contractimpl]\nimpl AxelarGateway {\n    /// Initialize the gateway\n', '''#[contractimpl]
+impl AxelarGateway {
+    /// Status of a message as a small integer (0 = unknown, 1 = approved, 2 = executed)
+    pub fn message_status_code(env: Env, source_chain: String, message_id: String) -> u32 {
+        match Self::message_approval(&env, source_chain, message_id) {
+            MessageApprovalValue::NotApproved => 0,
+            MessageApprovalValue::Approved(_) => 1,
+            MessageApprovalValue::Executed => 2,
+        }
+    }
+
+    /// Initialize the gateway
+''')
+for _p in ('C01', 'C02', 'C03', 'C06', 'C07', 'C08', 'C09', 'C13', 'C15', 'C16'):
+    M(_p, 'additive-gateway-view-entry-' + _p.lower(), GW, _GWVIEW[0], _GWVIEW[1], equiv=True)
+for _p in ('C12', 'C07', 'C11', 'C06'):
+    M(_p, 'additive-token-extra-ttl-bump-' + _p.lower(), TOK, '        from.require_auth();\n\n        Self::validate_amount(&env, amount);\n        Self::spend_balance(&env, from.clone(), amount);\n        Self::receive_balance(&env, to.clone(), amount);\n',
+      '        from.require_auth();\n        extend_instance_ttl(&env);\n\n        Self::validate_amount(&env, amount);\n        Self::spend_balance(&env, from.clone(), amount);\n        Self::receive_balance(&env, to.clone(), amount);\n', equiv=True)
